@@ -107,9 +107,10 @@ CLAIMED = {
              "an independent Python statement of 'exactly the targeted entries get exactly the requested value, nothing else changes, error => no change'; "
              "is_exec / is_readonly vs mode() over all 512 rwx values. Tree-level theorems over the mirror (Memfs/ChmodFacts.v): chown sets the "
              "requested ids on exactly the entries its traversal yields and changes nothing else; chmod, whatever it returns, changes nothing but "
-             "mode fields and only of entries its traversal names. Partial: which entries a traversal yields is C08's subject (judged there), and "
-             "that each named entry's mode becomes exactly the grammar's value is decided at tree level by the enumeration and the judge; the "
-             "Stdfs side runs under C02.",
+             "mode fields and only of entries its traversal names; without follow, chown succeeds in every well-formed state and sets the ids "
+             "of exactly the argument (recursive: everything at or below it), nothing else (from C08's exactness theorem). Partial: for chmod, and "
+             "for chown with follow, which entries the traversal yields is C08's subject, and that each named entry's mode becomes exactly the "
+             "grammar's value is decided at tree level by the enumeration and the judge; the Stdfs side runs under C02.",
         note="Trusted: Coq kernel; hooks sys::verif::{sym_mode, memfs_entry, memfs_snapshot}; tools/walkspec.py + c_mem.py sym_spec as the independent "
              "statement; KF-C11-octal-zero recorded; extraction, driver, harness, differ.",
         technique="Coq proof (state machine = clause fold) + exhaustive expression correspondence + model-guided BFS judged on pre/post snapshots",
@@ -209,8 +210,13 @@ CLAIMED = {
         technique="Coq proof (iff per macro) + exhaustive correspondence under catch_unwind",
         ref="§7 C20"),
     "C10": dict(
-        text="Coq theorems over the Memfs mirror: follow(true) swaps path and alt exactly once, is_dir / is_file exclude links, readlink on a non-link "
-             "fails; with C16's relative_navigates for the stored relative target. Tied by (link position, target position) pairs in trees up to depth 4, "
+        text="Coq theorems over the Memfs mirror (Memfs/LinkFacts.v): symlink(link, target) stores under the link path a link entry whose absolute "
+             "target is the resolved target (relative spellings taken from the link's directory), whose relative form is relative(target, dir(link)) "
+             "and whose kind is the target's kind at creation, and right afterwards readlink_abs / readlink / is_symlink / is_file / is_dir / "
+             "is_symlink_dir / is_symlink_file answer accordingly; follow(true) swaps path and alt exactly once, is_dir / is_file exclude links in "
+             "every state, readlink on a non-link fails; in every well-formed state remove, chown without follow and chmod without follow on a link "
+             "change the link (chmod: nothing) and leave every other entry, the target included, untouched; with C16's relative_navigates for the "
+             "stored relative target. Tied by (link position, target position) pairs in trees up to depth 4, "
              "absolute and relative spelling, target absent / file / dir / link; the statement's clauses (readlink_abs = abs(target), "
              "clean(dir(link)/readlink) = readlink_abs, readlink relative, link exclusion, is_symlink_dir / is_symlink_file) evaluated on the "
              "implementation's results; remove / chmod / chown without follow judged on pre/post snapshots to leave the target untouched. "
